@@ -11,7 +11,7 @@ let variant : RelEdit.variant =
   let mk f =
     { fx_insert_first = f "insert-first"; fx_append_sep = f "append-sep"; fx_pipe = f "pipe";
       fx_entry_push = f "entry-push"; fx_version_pos = f "version-pos"; fx_remove_last = f "remove-last";
-      fx_first_substvar = f "first-substvar"; fx_replace_ws = f "replace-ws" } in
+      fx_first_substvar = f "first-substvar"; fx_replace_ws = f "replace-ws"; fx_in_place = f "in-place" } in
   match (try Sys.getenv "VERIF_C11_MODEL" with Not_found -> "fixed") with
   | "shipped" -> RelEdit.shipped
   | "fixed" | "" -> RelEdit.fixed
